@@ -337,6 +337,43 @@ PROPS["C08"] = {
     "trusted": FILE_TRUST,
     "assumptions": ["the callback never fails in C08 runs"],
 }
+PROPS["C14"] = {
+    "lean_modules": ["AvroModel.Props.C14"],
+    "required_theorems": ["marshal_parse", "parse_wf", "parse_marshal_parse", "layout_invariant", "key_order", "unknown_attr",
+                          "structure_preserved", "malformed_toplevel", "malformed_attr", "malformed_nested", "malformed_branch",
+                          "malformed_duplicate", "malformed_duplicate_in_unknown", "malformed_field", "malformed_field_duplicate",
+                          "marshal_parse_full_false"],
+    "harness": ["C14"],
+    "level_text": "Proof: over a model of Schema.UnmarshalJSONFrom / MarshalJSONTo plus the JSON library's default struct decoding "
+                  "rules (documents are trees with ordered members, duplicates representable), for schemas and documents nested to any depth: "
+                  "parse(marshal s) = s for every well-formed schema value; what parsing returns for a document in the grammar is well-formed "
+                  "(so parse.marshal.parse = parse); the result is invariant under permuting the members of every object and under adding "
+                  "unknown attributes with arbitrary values at every depth (one master theorem, by mutual structural induction, with key_order, "
+                  "unknown_attr and structure_preserved as corollaries); wrong JSON kind for any known attribute, non-schema values in schema "
+                  "position, duplicate member names (also inside unknown values and record fields) are rejected wherever they occur. "
+                  "Tie: the real SchemaFromString / Schema.Marshal are run on generated JSON texts (random nesting, shuffled members, whitespace, "
+                  "escapes, unknown attributes, and a malformed stream of tree- and text-level damage); the text is turned into a tree by "
+                  "encoding/json (independent of the library under test); the compiled model must produce the same Schema value (dumped by "
+                  "reflection), an independent lookup-based reading of in-grammar documents must agree (structure oracle), the Marshal output must "
+                  "be valid JSON that both the model and the implementation read back as the identical value; schemas from SchemaForType on six "
+                  "Go struct types go through Marshal -> SchemaFromString and must come back identical.",
+    "level_note": "Trusted: Lean kernel; go-json-experiment tokenizer (JSON text -> tokens: whitespace, escapes, syntax errors, UTF-8) is outside "
+                  "the model and covered only by the differential run; library struct-decoding rules were determined by experiment and are re-validated "
+                  "on every run by the fixed corpus; nil and empty slices are identified; the full-strength round trip for EVERY parsed value is false "
+                  "(attributes not belonging to the type are parsed but not serialised: marshal_parse_full_false) and is claimed only on WF values / in-grammar documents.",
+    "rule": "From one PRNG: schema documents of depth <= 6 over records (0-4 fields), enums, fixed, arrays, maps, unions, primitives in string and "
+            "object form with logicalType, name/namespace, odd and non-ASCII names; every tenth document is union-in-map-in-array-in-record; two thirds "
+            "carry unknown attributes (doc/default/aliases/order/precision/scale/case variants, arbitrary nested JSON values); members shuffled; "
+            "half with random whitespace, half with random \\u escapes. Malformed stream: one tree-level mutation (wrong kind for a member, duplicate member, "
+            "attribute of another type, key case change / member removal, scalar or empty union in schema position, non-schema top level, document nested "
+            "as `type`) or one text-level mutation (truncation, trailing comma, byte deletion/replacement, trailing/leading junk, unpaired surrogate / invalid "
+            "UTF-8, control character / bad escape, non-JSON literals). Fixed corpus of 66 documents pinning every library rule the model relies on, "
+            "nesting depth up to 2000.",
+    "trusted": ["github.com/go-json-experiment/json tokenizer and its default struct-decoding rules (modelled from experiment; re-validated by the fixed corpus on every run)",
+                "encoding/json (harness: text -> tree for the Lean side, and the judge of 'Marshal output is valid JSON')"],
+    "assumptions": ["Go strings in schema values are valid UTF-8 (Lean `String`); SchemaFromString never produces others",
+                    "Go `int` is 64-bit"],
+}
 
 NOT_APPLICABLE = {}
 
